@@ -626,11 +626,51 @@ def budget_part(ctx, fails, cases):
             break
 
 
+def stateful_part(ctx, fails):
+    """a structural model whose modifier is a stateful patsy transform (A:center(W0)) on data with missing outcomes: the design
+    of the estimating equations is the formula evaluated on the ANALYSED rows (those with an observed outcome), so the fit must
+    equal the fit with the modifier centred by hand on those rows"""
+    done = 0
+    for _ in range(60):
+        df, meta = make_frame(ctx.rng)
+        if not meta['missing'] or 'W0' not in meta['covs'] or 'W0' not in meta['emodel'].replace('W0c', ''):
+            continue
+        obs = df['Y'].notna()
+        if obs.all() or obs.sum() < 12:
+            continue
+        df2 = df.copy()
+        df2['W0h'] = df2['W0'] - float(df2.loc[obs, 'W0'].mean())
+        res = []
+        try:
+            for frame, f in ((df, 'A + A:center(W0)'), (df2, 'A + A:W0h')):
+                g = build(frame, meta, f)
+                with warnings.catch_warnings():
+                    warnings.simplefilter('ignore')
+                    g.fit(solver='closed')
+                res.append([float(x) for x in np.asarray(g.psi).ravel()])
+        except Exception as ex:   # noqa
+            fails.append((len(df), 'GEstimationSNM.stateful-modifier.raises', 'SNM A + A:center(W0) raised %s: %s' % (type(ex).__name__, str(ex)[:120]),
+                          payload_of(df, meta, 'A + A:center(W0)')))
+            continue
+        ctx.evaluations += 1
+        ctx.disagreements_checked += 1
+        ctx.count('structural model with a stateful transform and missing outcomes (%s)' % meta['missing'])
+        ctx.nontriv(['stateful', len(df), str(df.iloc[0].tolist()), meta['missing']])
+        if any(rel(a, b) > 1e-8 for a, b in zip(res[0], res[1])):
+            fails.append((len(df), 'GEstimationSNM.stateful-modifier', "closed-form psi %r for snm 'A + A:center(W0)' differs from %r for the modifier centred by "
+                          'hand on the rows with an observed outcome (%d of %d rows; missing=%s)' % (res[0], res[1], int(obs.sum()), len(df), meta['missing']),
+                          payload_of(df, meta, 'A + A:center(W0)', {'stateful': True})))
+        done += 1
+        if done >= (2 if ctx.quick else 12):
+            break
+
+
 def run(ctx):
     fails = []
     cases = gen_cases(ctx)
     check_cases(ctx, fails, cases, search_plan(ctx, cases))
     budget_part(ctx, fails, cases)
+    stateful_part(ctx, fails)
     report(ctx, fails)
 
 
@@ -656,7 +696,9 @@ def replay(ctx, payload):
         case = (df, meta, f, mods)
         if payload.get('steps'):
             case = case + ([tuple(st) for st in payload['steps']],)
-        if payload.get('maxiter'):
+        if payload.get('stateful'):
+            stateful_part(ctx, fails)
+        elif payload.get('maxiter'):
             budget_part(ctx, fails, [case])
         else:
             check_cases(ctx, fails, [case], plan)
@@ -664,4 +706,5 @@ def replay(ctx, payload):
         cases = gen_cases(ctx)
         check_cases(ctx, fails, cases, search_plan(ctx, cases))
         budget_part(ctx, fails, cases)
+        stateful_part(ctx, fails)
     report(ctx, fails)
